@@ -26,6 +26,9 @@ MESHES = {
     "tetra": SG.tetra,
     "fan3": SG.fan3,
     "octa": SG.octa,
+    "cube12": SG.cube12,
+    "screen3": lambda: SG.screen(3),
+    "torus33": lambda: SG.torus(3, 3),
 }
 
 
@@ -63,7 +66,7 @@ def _num_rules(seed):
 
 
 def run_pipeline(mesh, test_spec, trial_spec, kernel_key=None, numeric=False, seed=0, domain_indices=None, trial_mesh=None,
-                 assembly_type="default_scalar", geometry="derived", par_case="ki!=0"):
+                 assembly_type="default_scalar", geometry="derived", par_case="ki!=0", trial_domain_indices=None):
     """Execute the real pipeline; returns dict with A (assembled), singular triple, and the context for the spec."""
     import bempp_cl.api as api
     from bempp_cl.api.operators import OperatorDescriptor
@@ -78,7 +81,7 @@ def run_pipeline(mesh, test_spec, trial_spec, kernel_key=None, numeric=False, se
         tgrid = grid
     else:
         v2, e2 = _mesh(trial_mesh)
-        tgrid = SG.make_grid(v2 + np.array([[3.0], [0.4], [0.2]]), e2)
+        tgrid = SG.make_grid(v2 + np.array([[3.0], [0.4], [0.2]]), e2, np.array(trial_domain_indices, dtype="uint32") if trial_domain_indices is not None else None)
     test = make_space(grid, test_spec)
     trial = make_space(tgrid, trial_spec)
     if numeric:
@@ -183,10 +186,11 @@ NO_NORMALS = ("maxwell_electric_field", "maxwell_magnetic_field")
 
 
 def check_pipeline(mesh, test_spec, trial_spec, numeric=False, seed=0, domain_indices=None, trial_mesh=None, assembly_type="default_scalar",
-                   par_case="ki!=0"):
+                   par_case="ki!=0", trial_domain_indices=None):
     """Returns (ok, detail, info)."""
     ctx = run_pipeline(mesh, test_spec, trial_spec, numeric=numeric, seed=seed, domain_indices=domain_indices, trial_mesh=trial_mesh,
-                       assembly_type=assembly_type, geometry="derived" if assembly_type == "default_scalar" else "free", par_case=par_case)
+                       assembly_type=assembly_type, geometry="derived" if assembly_type == "default_scalar" else "free", par_case=par_case,
+                       trial_domain_indices=trial_domain_indices)
     form = FORMS[assembly_type]
     test, trial, grid = ctx["test"], ctx["trial"], ctx["grid"]
     same_grid = ctx["tgrid"] is grid
@@ -258,10 +262,11 @@ def check_pipeline(mesh, test_spec, trial_spec, numeric=False, seed=0, domain_in
     return True, "%d singular + %d regular element pairs, matrix %dx%d" % (n_sing, n_reg, exp.shape[0], exp.shape[1]), {}
 
 
-def replay_pipeline(mesh, test_spec, trial_spec, domain_indices=None, trial_mesh=None, seed=0, assembly_type="default_scalar", par_case="ki!=0"):
+def replay_pipeline(mesh, test_spec, trial_spec, domain_indices=None, trial_mesh=None, seed=0, assembly_type="default_scalar", par_case="ki!=0",
+                    trial_domain_indices=None):
     ok, detail, info = check_pipeline(mesh, _spec(test_spec), _spec(trial_spec), numeric=True, seed=seed,
                                       domain_indices=np.array(domain_indices, dtype="uint32") if domain_indices is not None else None, trial_mesh=trial_mesh,
-                                      assembly_type=assembly_type, par_case=par_case)
+                                      assembly_type=assembly_type, par_case=par_case, trial_domain_indices=trial_domain_indices)
     return {"violates": not ok, "detail": detail}
 
 
@@ -269,16 +274,17 @@ def _spec(s):
     return (s[0], int(s[1]), dict(s[2]))
 
 
-def ob_pipeline(mesh, test_spec, trial_spec, domain_indices=None, trial_mesh=None, assembly_type="default_scalar", par_case="ki!=0"):
+def ob_pipeline(mesh, test_spec, trial_spec, domain_indices=None, trial_mesh=None, assembly_type="default_scalar", par_case="ki!=0", trial_domain_indices=None):
     di = np.array(domain_indices, dtype="uint32") if domain_indices is not None else None
     ok, detail, info = check_pipeline(mesh, test_spec, trial_spec, numeric=False, domain_indices=di, trial_mesh=trial_mesh, assembly_type=assembly_type,
-                                      par_case=par_case)
+                                      par_case=par_case, trial_domain_indices=trial_domain_indices)
     if ok:
         return proved("sym-exec+normal-form", detail)
-    rp = replay_pipeline(mesh, list(test_spec), list(trial_spec), domain_indices, trial_mesh, assembly_type=assembly_type, par_case=par_case)
+    rp = replay_pipeline(mesh, list(test_spec), list(trial_spec), domain_indices, trial_mesh, assembly_type=assembly_type, par_case=par_case,
+                         trial_domain_indices=trial_domain_indices)
     return violated(detail, witness={"mesh": mesh, "test": list(test_spec), "trial": list(trial_spec), "domain_indices": domain_indices},
                     replay={"callable": "vlib.pipeline:replay_pipeline",
                             "kwargs": {"mesh": mesh, "test_spec": list(test_spec), "trial_spec": list(trial_spec), "domain_indices": domain_indices,
-                                       "trial_mesh": trial_mesh, "assembly_type": assembly_type, "par_case": par_case},
+                                       "trial_mesh": trial_mesh, "assembly_type": assembly_type, "par_case": par_case, "trial_domain_indices": trial_domain_indices},
                             "confirmed": rp["violates"], "result": rp},
                     signature="pipeline/%s/%s/%s/%s" % (assembly_type, mesh, test_spec[0] + str(test_spec[1]), trial_spec[0] + str(trial_spec[1])))
